@@ -178,11 +178,11 @@ def run(ctx):
             print(p.stdout[-3000:])
             raise lib.Inconclusive("the TLAPS proof of the inductive invariant (SFI_IndInv_proofs.tla) did not go through")
         import re as _re
-        m = _re.search(r"All (\d+) obligations proved", p.stdout)
+        m = _re.search(r"TOTAL: (\d+) proof obligations discharged", p.stdout) or _re.search(r"All (\d+) obligations proved", p.stdout)
         ctx.coverage["tlaps"] = {"obligations": int(m.group(1)) if m else None, "discharged": int(m.group(1)) if m else None,
                                  "checker_cmd": "bash spec/conc/check_sfi_indinv.sh --neg",
-                                 "theorem": "Spec => [](NoPanic /\\ LeaderOwnsEntry /\\ NoForeignCancel /\\ Transparent /\\ SharedOnlyIfSameKey /\\ NoTornBuffer) for every N, MaxCancels in Nat, Fixed = TRUE",
-                                 "negative_control": "without Fixed = TRUE exactly the AfterWokeNothing and EndWork steps are unprovable"}
+                                 "theorem": "for SingleFlightInbound and SingleFlightSubgraph: Spec => [](NoPanic /\\ LeaderOwnsEntry /\\ NoForeignCancel /\\ Transparent /\\ SharedOnlyIfSameKey /\\ NoTornBuffer) for every N, MaxCancels in Nat, Fixed = TRUE",
+                                 "negative_control": "without Fixed = TRUE exactly the AfterWokeNothing / EndWork steps (inbound) and the AfterWokeShared step (subgraph) are unprovable"}
     # the pinned (pre-fix) protocol must be *rejected* by the model: guards against a vacuous spec
     r = ctx.tlc("conc", "MC_SFI", "MC_SFI_3_pinned.cfg", timeout=600, count=False, tag="mc-inbound-pinned-negative")
     if r.violated != "NoPanic":
